@@ -14,9 +14,9 @@ Lemma yload_table_wf tbl : forallb res_wf tbl = true -> forall text v, table_fun
 Proof. intros Hall text v E. apply table_fun_in in E. rewrite forallb_forall in Hall. apply (Hall _ E). Qed.
 Lemma variants_eqb_eq a b : variants_eqb a b = true -> a = b.
 Proof.
-  destruct a as [a1 a2 a3], b as [b1 b2 b3]. unfold variants_eqb. cbn.
-  intros E. apply andb_true_iff in E as [E E3]. apply andb_true_iff in E as [E1 E2].
-  apply Bool.eqb_prop in E1, E2, E3. now subst.
+  destruct a as [a1 a2 a4 a3], b as [b1 b2 b4 b3]. unfold variants_eqb. cbn.
+  intros E. apply andb_true_iff in E as [E E4]. apply andb_true_iff in E as [E E3]. apply andb_true_iff in E as [E1 E2].
+  apply Bool.eqb_prop in E1, E2, E3, E4. now subst.
 Qed.
 Lemma exc_eqb_refl e : exc_eqb e e = true.
 Proof. apply Z.eqb_refl. Qed.
@@ -47,7 +47,7 @@ Section Model.
 
   Lemma data_clause_ok nm q : data_clause nm c q (sf (mk_call c q)) = [].
   Proof.
-    unfold data_clause, spec_of. rewrite Hv.
+    unfold data_clause, spec_of. rewrite Hv. change (no_marker current_variants) with current_variants.
     pose proof (spec_full_data current_variants (cC c) model_H (table_fun (q_render q)) yl (mo_of c (q_sys q) (q_pv q)) (q_tree q)) as D.
     unfold spec_result in D. cbn [empty_raises current_variants andb] in D.
     unfold sf, spec_full_of_call. cbn [mk_call k_render k_match k_tree].
